@@ -4,10 +4,19 @@ from __future__ import annotations
 import copy
 from fractions import Fraction
 
-from .. import gen1
+from .. import gen1, impl1
 from ..core import rs
 from .base1 import Hist1Prop
 from .c03 import partition
+
+# the stream "refused operations in the middle of a history" (gen_refused_mid): switch for the whole stream, and the
+# refusal kinds it draws from (a kind can be taken out here without touching the rest)
+ENABLE_REFUSED_MID = True
+REFUSALS_ADAPTIVE = ["iadd_missed", "iadd_not_adaptable", "iadd_other_width", "iadd_other_shift"]
+REFUSALS_STATIC = ["iadd_incompatible", "coll_add_incompatible"]
+REFUSALS_ANY = ["isub_negative", "fill_n_wshape", "imul_negative", "imul_array", "idiv_zero", "set_dtype", "merge"]
+BIG_W = 1048576          # 2^20: a weight no content of the histories below can reach
+INVALID = "invalid"      # oracle marker: the statistics of this register must read as invalid
 
 
 def inrange_values(rng, pairs, n):
@@ -43,7 +52,14 @@ class C14(Hist1Prop):
             "(subtraction, construction from bare frequencies, slicing); one case in three is a random HISTORY on one histogram (fill, "
             "fill_n, *= /= * / by powers of two, in-place normalize, copy, + a histogram of further data) whose statistics are "
             "compared after every step with the raw data entered so far (weights rescaled); every history is also run without "
-            "reading the histogram between the operations. non-trivial = at least 2 distinct values entered; "
+            "reading the histogram between the operations; one case in six (stream:refused_mid_history) is a history on an adaptive / "
+            "static / gapped / fixed-width histogram in which operations the library refuses (+= / + of an operand the adaptive bins "
+            "cannot take in: missed weight, bins that cannot be made adaptive, another width, another alignment; incompatible static "
+            "bins; -= / - that would go negative; fill_n with a wrong weights shape; *= by a negative number or an array; /= 0; "
+            "refused set_dtype / merge_bins / HistogramCollection.add) alternate with accepted fills, batches, additions and "
+            "rescalings, the statistics being compared EXACTLY after every step (the refused ones included) with the data entered by "
+            "the accepted steps. non-trivial = at least 2 distinct values entered (there: a planned refusal really refused, with "
+            "data entered before and after it); "
             "distinct = hash of the op list")
     FIELDS = {"stats", "freq"}
 
@@ -167,7 +183,405 @@ class C14(Hist1Prop):
                 break
         return fails[:5]
 
+    # ------------------------------------------------------------------ refused operations in the middle of a history
+    def gen_refused_mid(self, rng):
+        """one 1-D histogram `a` (adaptive fixed-width, static, gapped, non-adaptive fixed-width) with a history in which
+        operations the library REFUSES are mixed with accepted ones, the caller going on with `a` after every refusal:
+        `a += b` / `a + b` with a `b` the adaptive `a` cannot take in (missed weight; bins that cannot be made adaptive;
+        another width; another alignment), with incompatible static bins; `a -= b` / `a - b` that would make a content
+        negative; fill_n with a wrong weights shape; `*=` by a negative number / by an array; `/= 0`; a refused set_dtype;
+        a refused merge_bins; a refused HistogramCollection.add -- between fills, batches, accepted additions (same bins,
+        or bins the adaptive `a` grows to), copies and rescalings by powers of two.  All values and weights are dyadic:
+        the recorded statistics are compared EXACTLY, after every step, with the data of the accepted steps."""
+        adaptive = rng.random() < 0.6
+        ops, planned = [], []
+        if adaptive or rng.random() < 0.25:
+            w = rng.choice([1.0, 0.5, 2.0])
+            tmin, count = rng.randint(-3, 3), rng.randint(1, 4)
+            b = gen1.fixed_json(w, tmin, count, adaptive=adaptive)
+            pairs = [[(tmin + i) * w, (tmin + i + 1) * w] for i in range(count)]
+        else:
+            pairs = dy_bins(rng)
+            w = None
+            consecutive = all(pairs[i][1] == pairs[i + 1][0] for i in range(len(pairs) - 1))
+            b = gen1.binning_json(pairs, form=rng.choice(["pairs", "static_obj"] + (["numpy_obj"] if consecutive else [])))
+        lo, hi = pairs[0][0], pairs[-1][1]
+        unit = w or 1.0
+
+        def grid_vals(width, t0, cnt, n, spread=0, shift=0.0):
+            return [(rng.randint(t0 - spread, t0 + cnt - 1 + spread) + rng.randrange(8) / 8) * width + shift for _ in range(n)]
+
+        def vals(n):          # values `a` takes in: anywhere near for an adaptive one, inside the bins otherwise
+            return grid_vals(w, tmin, count, n, spread=5) if adaptive else inrange_values(rng, pairs, n)
+
+        def wts(n, p_none=0.5):
+            return None if rng.random() < p_none else [rs(rng.choice([1, 2, 0.5, 0.25])) for _ in range(n)]
+
+        nreg = [1]
+
+        def operand(bj, vs, ws=None, untracked=False):
+            """a further histogram over the binning `bj` holding the values `vs`"""
+            r = nreg[0]; nreg[0] += 1
+            extra = {"untracked": True} if untracked else {}
+            if bj["t"] == "fixed" or rng.random() < 0.3:
+                ops.append({"op": "empty", "out": r, "binning": bj})
+                ops.append({"op": "fill_n", "h": r, "vs": gen1.enc_vals(vs), "ws": ws, "wkind": "float64", **extra})
+            else:
+                ops.append({"op": "construct", "out": r, "binning": bj, "data": gen1.enc_vals(vs), "weights": ws,
+                            "wkind": "float64" if ws else None, **extra})
+            return r
+
+        def elsewhere(width, shift=0.0, adaptive_=False):
+            """a fixed-width binning (as JSON) away from the bins `a` starts with, and values inside it"""
+            t0 = int(hi // width) + rng.randint(2, 5) if rng.random() < 0.7 else int(lo // width) - rng.randint(4, 8)
+            cnt = rng.randint(1, 3)
+            return gen1.fixed_json(width, t0, cnt, shift=shift, adaptive=adaptive_), grid_vals(width, t0, cnt, rng.choice([1, 2, 3]), shift=shift), t0, cnt
+
+        # --- the histogram itself, with something in it
+        n0 = rng.choice([1, 2, 3, 5])
+        v0 = vals(n0) if adaptive else inrange_values(rng, pairs, n0)
+        if b["t"] == "fixed" or rng.random() < 0.5:
+            ops.append({"op": "empty", "out": 0, "binning": b})
+            ops.append({"op": "fill_n", "h": 0, "vs": gen1.enc_vals(v0), "ws": wts(n0), "wkind": "float64"})
+        else:
+            ws0 = wts(n0)
+            ops.append({"op": "construct", "out": 0, "binning": b, "data": gen1.enc_vals(v0), "weights": ws0,
+                        "wkind": "float64" if ws0 else None})
+        cur = 0
+
+        def accepted():
+            nonlocal cur
+            kinds = ["fill", "fill", "fill_n", "fill_n", "iadd_same", "add_same", "scale", "copy"]
+            if adaptive:
+                kinds += ["iadd_grid", "iadd_grid", "add_grid"]
+            elif b["t"] == "static":
+                kinds += ["coll_add"]
+            kind = rng.choice(kinds)
+            if kind == "fill":
+                wt = rng.choice([1, 1, 2, 0.5, 3])
+                ops.append({"op": "fill", "h": cur, "v": rs(vals(1)[0]), "w": rs(wt), "wk": "pyint" if isinstance(wt, int) else "pyfloat",
+                            "default_w": wt == 1 and rng.random() < 0.5})
+            elif kind == "fill_n":
+                m = rng.choice([0, 1, 2, 4])
+                ops.append({"op": "fill_n", "h": cur, "vs": gen1.enc_vals(vals(m)), "ws": wts(m), "wkind": "float64"})
+            elif kind in ("iadd_same", "add_same", "iadd_grid", "add_grid"):
+                m = rng.choice([1, 2, 3])
+                if kind.endswith("same"):
+                    r = operand(b, vals(m), wts(m, 0.6))
+                else:       # other bins of the same grid (adaptive or not, nothing missed): `a` grows to take them in
+                    bj, vs, _, _ = elsewhere(w, adaptive_=rng.random() < 0.5)
+                    r = operand(bj, vs, wts(len(vs), 0.6))
+                if kind.startswith("iadd"):
+                    ops.append({"op": "iadd", "h": cur, "o": r})
+                else:
+                    out = nreg[0]; nreg[0] += 1
+                    ops.append({"op": "add", "a": cur, "b": r, "out": out})
+                    if rng.random() < 0.5:
+                        cur = out
+            elif kind == "scale":
+                c = rng.choice([2, 4, 0.5, 0.25])
+                ops.append({"op": rng.choice(["imul", "idiv"]), "h": cur, "c": rs(c),
+                            "k": rng.choice(["pyint", "int64"]) if isinstance(c, int) else rng.choice(["pyfloat", "float64"])})
+            elif kind == "copy":
+                out = nreg[0]; nreg[0] += 1
+                ops.append({"op": "copy", "h": cur, "out": out})
+                if rng.random() < 0.5:
+                    cur = out
+            else:           # the histogram joins a collection of histograms over the same bins: nothing of it may change
+                m = rng.choice([1, 2])
+                members = []
+                for _ in range(m):
+                    r = nreg[0]; nreg[0] += 1
+                    ops.append({"op": "empty", "out": r, "binning": b})
+                    k_ = rng.choice([0, 1, 3])
+                    ops.append({"op": "fill_n", "h": r, "vs": gen1.enc_vals(vals(k_)), "ws": wts(k_, 0.6), "wkind": "float64"})
+                    members.append(r)
+                out = nreg[0]; nreg[0] += 1
+                # (whether two binning objects of different classes over the same bins may share a collection is physt's choice)
+                ops.append({"op": "coll_add", "members": members, "h": cur, "out": out, "maybe_refused": True})
+
+        def refused():
+            pool = list(REFUSALS_ANY) + (list(REFUSALS_ADAPTIVE) * 2 if adaptive else list(REFUSALS_STATIC) * 2)
+            kind = rng.choice(pool)
+            inplace = rng.random() < 0.65       # otherwise the copying form: the refused copy is discarded
+            mark = {"expect_refused": True, "refusal": kind + ("" if inplace else ":copy")}
+            planned.append(mark["refusal"])
+
+            def plus(r):
+                if inplace:
+                    ops.append({"op": "iadd", "h": cur, "o": r, **mark})
+                else:
+                    out = nreg[0]; nreg[0] += 1
+                    ops.append({"op": "add", "a": cur, "b": r, "out": out, **mark})
+
+            if kind == "iadd_missed":
+                # the other operand kept weight outside its bins (non-adaptive bins of the same grid, elsewhere)
+                bj, vs, t0, cnt = elsewhere(w)
+                out_v = (t0 + cnt + rng.randint(0, 3) + 0.5) * w if rng.random() < 0.6 else (t0 - rng.randint(1, 3) + 0.25) * w
+                vs = vs + [out_v]
+                rng.shuffle(vs)
+                plus(operand(bj, vs, wts(len(vs), 0.6), untracked=True))
+            elif kind == "iadd_not_adaptable":
+                # static / numpy bins (a width `a` never has, so never the same bins): cannot be made adaptive
+                e0 = (int(hi // unit) + rng.randint(1, 4)) * unit if rng.random() < 0.7 else (int(lo // unit) - rng.randint(4, 7)) * unit
+                n2 = rng.randint(1, 3)
+                p2 = [[e0 + 0.75 * unit * i, e0 + 0.75 * unit * (i + 1)] for i in range(n2)]
+                bj = gen1.binning_json(p2, form=rng.choice(["pairs", "static_obj", "numpy_obj", "edges"]))
+                m = rng.choice([1, 2, 3])
+                plus(operand(bj, inrange_values(rng, p2, m), wts(m, 0.6)))
+            elif kind == "iadd_other_width":
+                w2 = w * rng.choice([2, 0.5, 3, 1.5])
+                bj, vs, _, _ = elsewhere(w2, adaptive_=rng.random() < 0.6)
+                plus(operand(bj, vs, wts(len(vs), 0.6)))
+            elif kind == "iadd_other_shift":
+                bj, vs, _, _ = elsewhere(w, shift=w * rng.choice([0.25, 0.5]), adaptive_=rng.random() < 0.6)
+                plus(operand(bj, vs, wts(len(vs), 0.6)))
+            elif kind == "iadd_incompatible":
+                if rng.random() < 0.6:      # one bin more than `a` has
+                    base = rng.randint(-4, 4)
+                    p2 = [[float(base + i), float(base + i + 1)] for i in range(len(pairs) + 1)]
+                    bj = gen1.binning_json(p2, form=rng.choice(["pairs", "static_obj"]))
+                    m = rng.choice([1, 2, 3])
+                    plus(operand(bj, inrange_values(rng, p2, m), wts(m, 0.6)))
+                else:                       # an adaptive fixed-width histogram (the left operand is not adaptive)
+                    bj, vs, _, _ = elsewhere(unit, adaptive_=True)
+                    plus(operand(bj, vs, wts(len(vs), 0.6)))
+            elif kind == "coll_add_incompatible":
+                base = rng.randint(-4, 4)
+                p2 = [[float(base + i), float(base + i + 1)] for i in range(len(pairs) + 1)]
+                bj = gen1.binning_json(p2, form="static_obj")
+                m = rng.choice([1, 2])
+                r = operand(bj, inrange_values(rng, p2, m), None)
+                out = nreg[0]; nreg[0] += 1
+                mark["refusal"] = planned[-1] = kind
+                ops.append({"op": "coll_add", "members": [r], "h": cur, "out": out, **mark})
+            elif kind == "isub_negative":
+                # the same bins `a` started with, one bin holding far more than `a` does
+                r = operand(b, [inrange_values(rng, pairs, 1)[0]], [rs(BIG_W)])
+                if inplace:
+                    ops.append({"op": "isub", "h": cur, "o": r, **mark})
+                else:
+                    out = nreg[0]; nreg[0] += 1
+                    ops.append({"op": "sub", "a": cur, "b": r, "out": out, **mark})
+            elif kind == "fill_n_wshape":
+                m = rng.choice([2, 3, 4])
+                mark["refusal"] = planned[-1] = kind
+                ops.append({"op": "fill_n", "h": cur, "vs": gen1.enc_vals(vals(m)), "wkind": "float64",
+                            "ws": [rs(rng.choice([1, 2, 0.5])) for _ in range(m + rng.choice([-1, 1, 2]))], **mark})
+            elif kind == "imul_negative":
+                c = rng.choice([-1, -2, -0.5])
+                op = {"op": "imul" if inplace else "mul", "h": cur, "c": rs(c), "k": "pyint" if isinstance(c, int) else "pyfloat", **mark}
+                if not inplace:
+                    op["out"] = nreg[0]; nreg[0] += 1
+                ops.append(op)
+            elif kind == "imul_array":
+                ops.append({"op": "invalid", "what": "imul_array" if inplace else "mul_array", "h": cur, **mark})
+            elif kind == "idiv_zero":
+                op = {"op": "idiv" if inplace else "div", "h": cur, "c": "0", "k": rng.choice(["pyint", "pyfloat"]), **mark}
+                if not inplace:
+                    op["out"] = nreg[0]; nreg[0] += 1
+                ops.append(op)
+            elif kind == "set_dtype":
+                # a quarter of a count entered just before: the contents are not integral
+                mark["refusal"] = planned[-1] = kind
+                ops.append({"op": "fill", "h": cur, "v": rs(vals(1)[0]), "w": "1/4", "wk": "pyfloat"})
+                ops.append({"op": "set_dtype", "h": cur, "dtype": rng.choice(["int64", "int32", "int16"]),
+                            "via_property": rng.random() < 0.5, **mark})
+            else:           # merge_bins without an amount / with the amount 0
+                op = {"op": "merge", "h": cur, "inplace": inplace, **mark}
+                if rng.random() < 0.5:
+                    op["amount"] = 0
+                if not inplace:
+                    op["out"] = nreg[0]; nreg[0] += 1
+                ops.append(op)
+
+        for _ in range(rng.randint(3, 7)):
+            if rng.random() < 0.45:
+                refused()
+            else:
+                accepted()
+        if not planned:
+            refused()
+        # the caller goes on: more data and an accepted addition after the last refusal
+        ops.append({"op": "fill", "h": cur, "v": rs(vals(1)[0]), "w": "1", "wk": "pyint", "default_w": rng.random() < 0.5})
+        if rng.random() < 0.6:
+            m = rng.choice([1, 2])
+            r = operand(b, vals(m), wts(m, 0.6))
+            ops.append({"op": "iadd", "h": cur, "o": r})
+        return {"kind": "hist1", "ops": ops, "stream": "refused_mid_history",
+                "tags": ["stream:refused_mid_history", "refused_mid:" + ("adaptive" if adaptive else b["t"])]}
+
+    # the op `coll_add` (HistogramCollection(*members).add(h); out := collection.sum()) is not in the generic op language:
+    # it is run here, and handed to the model as the sum it stands for (accepted) / as a refused call (refused)
+    @staticmethod
+    def _coll_add(s, op, log):
+        from physt.histogram_collection import HistogramCollection
+        try:
+            col = HistogramCollection(*[s.get(m) for m in op["members"]])
+            col.add(s.get(op["h"]))
+            s.set(op["out"], col.sum())
+            return "ok"
+        except Exception as e:      # refused: the class of the exception is recorded, never compared
+            log.append(f"coll_add: {type(e).__name__}: {e}"[:200])
+            return impl1.REFUSED
+
+    def _run(self, case, observe=True):
+        s, outs, log, ret = impl1.Store(), [], [], None
+        for op in case["ops"]:
+            ret = self._coll_add(s, op, log) if op["op"] == "coll_add" else impl1.step(s, op, log)
+            if observe:
+                outs.append({"ret": ret, "regs": [None if h is None else impl1.snap1(h) for h in s.regs]})
+        if observe:
+            return outs, log
+        return {"ret": ret, "regs": [None if h is None else impl1.snap1(h) for h in s.regs]}
+
+    def run_impl(self, case):
+        if case.get("stream") != "refused_mid_history":
+            return super().run_impl(case)
+        outs, log = self._run(case)
+        # (the second run reads nothing between the operations: see Hist1Prop.run_impl)
+        return {"outs": outs, "log": log, "unobserved_outs": outs[:-1] + [self._run(case, observe=False)]}
+
+    def model_case(self, case, io):
+        if case.get("stream") != "refused_mid_history" or not any(o["op"] == "coll_add" for o in case["ops"]):
+            return case
+        ops = []
+        for op, o in zip(case["ops"], io["outs"]):
+            if op["op"] != "coll_add":
+                ops.append(op)
+            elif o["ret"] == "ok":
+                ops.append({"op": "sum", "hs": list(op["members"]) + [op["h"]], "out": op["out"]})
+            else:
+                ops.append({"op": "invalid", "what": "coll_add", "h": op["h"]})
+        return {**case, "ops": ops}
+
+    def tags(self, case, io):
+        t = super().tags(case, io)
+        if case.get("stream") == "refused_mid_history":
+            for op, o in zip(case["ops"], io["outs"]):
+                if op.get("refusal"):
+                    t.append(("kind:refused=" if o["ret"] == "REFUSED" else "kind:NOT_refused=") + op["refusal"])
+        return t
+
+    @staticmethod
+    def stats_fails(st, pairs, where):
+        """the statistics `st` read from a histogram against the raw (value, weight) pairs entered: sums, extremes exactly
+        (dyadic data), the derived moments within rounding; pairs == INVALID: every number must read as NaN"""
+        if pairs == INVALID:
+            if st["valid"]:
+                return [f"not_invalidated: {where}: the statistics still read as valid numbers"]
+            if st.get("_numbers"):
+                return [f"not_invalidated: {where}: the statistics are invalid (weight NaN) but {st['_numbers']} still read as numbers"]
+            return []
+        if not st["valid"]:
+            return [f"stats_invalid_history: {where}: the statistics read as invalid"]
+
+        def num(x):
+            try:
+                return None if x is None else Fraction(x)
+            except ValueError:
+                return x
+        fails = []
+        W = sum((w for _, w in pairs), Fraction(0))
+        S = sum((w * v for v, w in pairs), Fraction(0))
+        S2 = sum((w * v * v for v, w in pairs), Fraction(0))
+        for f, e in (("weight", W), ("sum", S), ("sum2", S2), ("min", min((v for v, _ in pairs), default=None)),
+                     ("max", max((v for v, _ in pairs), default=None))):
+            if num(st[f]) != e:
+                fails.append(f"stats_{f}_history: {where}: {f} = {st[f]}, the data entered by the accepted steps give {e}")
+        if fails:
+            return fails
+        if W == 0:
+            if st["mean"] is not None:
+                fails.append(f"mean_empty_history: {where}: weight 0 but mean() = {st['mean']}")
+        elif W > 0:
+            mean, var = S / W, (S2 - S * S / W) / W
+            slack = lambda x: abs(x) * Fraction(1, 10**9) + Fraction(1, 10**9)
+            if not isinstance(num(st["mean"]), Fraction) or abs(num(st["mean"]) - mean) > slack(mean):
+                fails.append(f"mean_history: {where}: mean() = {st['mean']}, weighted mean of the data = {mean}")
+            if not isinstance(num(st["variance"]), Fraction) or abs(num(st["variance"]) - var) > slack(var):
+                fails.append(f"variance_history: {where}: variance() = {st['variance']}, population variance of the data = {var}")
+            elif isinstance(num(st.get("_std")), Fraction):
+                sd = num(st["_std"])
+                if sd < 0 or abs(sd * sd - var) > slack(var):
+                    fails.append(f"std_history: {where}: std() = {float(sd)}, its square is not the population variance {float(var)}")
+        return fails
+
+    def oracle_refused_mid(self, case, io):
+        """per register, the raw (value, weight) pairs entered by the steps the library ACCEPTED (its own answer decides:
+        a refused step enters nothing, whatever was planned), weights rescaled by the accepted rescalings; the recorded
+        statistics of every register are compared with them after every step, the refused ones included.  A register is no
+        longer followed (None) once something the property does not pin has happened to it (weight outside the bins, an
+        accepted negative factor ...); after an accepted subtraction the statistics must read as invalid."""
+        data, fails = {}, []
+
+        def both(x, y, f):
+            if x is None or y is None:
+                return None
+            return INVALID if INVALID in (x, y) else f(x, y)
+
+        for k, (op, o) in enumerate(zip(case["ops"], io["outs"])):
+            name, ret = op["op"], o["ret"]
+            if ret == "REFUSED":
+                if not (op.get("expect_refused") or op.get("maybe_refused")):
+                    if any(x in op and op[x] not in data for x in ("h", "a", "b", "o")):
+                        break       # an operand was never created (its creation was refused and reported there)
+                    return [f"refused_valid: step {k} ({name}) was refused: " + "; ".join(io["log"][-1:])]
+            elif name == "construct":
+                data[op["out"]] = None if op.get("untracked") else [
+                    (Fraction(v), Fraction(w)) for v, w in zip(op["data"], op["weights"] or ["1"] * len(op["data"]))]
+            elif name == "empty":
+                data[op["out"]] = []
+            elif name == "fill":
+                if isinstance(ret, int) and not isinstance(ret, bool) and ret >= 0 and data.get(op["h"]) not in (None, INVALID):
+                    data[op["h"]] = data[op["h"]] + [(Fraction(op["v"]), Fraction(op["w"]))]
+                elif data.get(op["h"]) != INVALID:
+                    data[op["h"]] = None
+            elif name == "fill_n":
+                h = op["h"]
+                if op.get("untracked") or op.get("expect_refused") or data.get(h) is None:
+                    data[h] = None
+                elif data[h] != INVALID:
+                    data[h] = data[h] + [(Fraction(v), Fraction(w)) for v, w in zip(op["vs"], op["ws"] or ["1"] * len(op["vs"]))]
+            elif name in ("iadd", "add"):
+                x, y = (op["h"], op["o"]) if name == "iadd" else (op["a"], op["b"])
+                data[op.get("out", x)] = both(data.get(x), data.get(y), lambda p, q: p + q)
+            elif name in ("isub", "sub"):
+                x, y = (op["h"], op["o"]) if name == "isub" else (op["a"], op["b"])
+                data[op.get("out", x)] = both(data.get(x), data.get(y), lambda p, q: INVALID)
+            elif name in ("imul", "idiv", "mul", "div"):
+                c = Fraction(op["c"])
+                src = data.get(op["h"])
+                if c <= 0 or src is None:
+                    data[op.get("out", op["h"])] = None
+                elif src == INVALID:
+                    data[op.get("out", op["h"])] = INVALID
+                else:
+                    c = c if name in ("imul", "mul") else 1 / c
+                    data[op.get("out", op["h"])] = [(v, w * c) for v, w in src]
+            elif name == "copy":
+                data[op["out"]] = data.get(op["h"])
+            elif name == "coll_add":
+                srcs = [data.get(r) for r in list(op["members"]) + [op["h"]]]
+                data[op["out"]] = None if any(x is None for x in srcs) else INVALID if INVALID in srcs else [p for x in srcs for p in x]
+            elif name in ("set_dtype", "merge"):
+                if "out" in op:
+                    data[op["out"]] = data.get(op["h"])
+            else:       # an `invalid` call that was accepted: nothing is pinned afterwards
+                data[op["h"]] = None
+            for r, pairs in data.items():
+                snap = o["regs"][r] if r < len(o["regs"]) else None
+                if pairs is None or snap is None:
+                    continue
+                what = f"register {r} after step {k} ({name}" + (f", REFUSED: {op.get('refusal', '')}" if ret == "REFUSED" else "") + ")"
+                fails += self.stats_fails(snap["stats"], pairs, what)
+            if fails:
+                break
+        return fails[:5]
+
     def gen_case(self, rng, k, tier):
+        if ENABLE_REFUSED_MID and k % 6 == 3:
+            return self.gen_refused_mid(rng)
         if k % 12 == 7:
             return self.gen_narrow_values(rng)
         if k % 3 == 1:
@@ -231,6 +645,26 @@ class C14(Hist1Prop):
         return {"kind": "hist1", "ops": ops, "tags": ["tail:" + src["tail"]], "src": src}
 
     def shrink_candidates(self, case):
+        if case.get("stream") == "refused_mid_history":
+            # drop a step (every register used later must still have been created), then single values of the batches
+            def refs(o):
+                return [o[x] for x in ("h", "a", "b", "o") if x in o] + list(o.get("members", []))
+            for k in range(len(case["ops"]) - 1, 0, -1):
+                c = copy.deepcopy(case)
+                del c["ops"][k]
+                if all(set(refs(o)) <= self._defined(c["ops"][:i]) for i, o in enumerate(c["ops"])):
+                    yield c
+            for k, op in enumerate(case["ops"]):
+                if op.get("expect_refused") or op.get("untracked"):
+                    continue        # (their shape / out-of-range value is what makes them what they are)
+                for key, wkey in (("data", "weights"), ("vs", "ws")):
+                    for j in range(len(op.get(key) or [])):
+                        c = copy.deepcopy(case)
+                        del c["ops"][k][key][j]
+                        if c["ops"][k].get(wkey) is not None:
+                            del c["ops"][k][wkey][j]
+                        yield c
+            return
         if case.get("mixed"):
             for k in range(len(case["ops"]) - 1, 0, -1):
                 c = copy.deepcopy(case)
@@ -260,6 +694,8 @@ class C14(Hist1Prop):
         return {o["out"] for o in ops if "out" in o}
 
     def oracle(self, case, io):
+        if case.get("stream") == "refused_mid_history":
+            return self.oracle_refused_mid(case, io)
         if case.get("mixed"):
             return self.oracle_mixed(case, io)
         outs = io["outs"]
@@ -333,7 +769,28 @@ class C14(Hist1Prop):
                         fails.append(f"not_invalidated: after {what} the statistics are invalid (weight NaN) but {st['_numbers']} still read as numbers")
         return fails[:6]
 
+    def neighbours(self, case):
+        """around a history with refusals: the history cut right after each refused step, the caller then entering one more
+        value into every histogram that exists (reading the statistics after the refusal and after the next accepted step)"""
+        if case.get("stream") != "refused_mid_history":
+            return []
+        out = []
+        for k, op in enumerate(case["ops"]):
+            if not op.get("refusal"):
+                continue
+            head = copy.deepcopy(case["ops"][:k + 1])
+            v = next((o["v"] for o in case["ops"] if o["op"] == "fill"), None)
+            tail = [{"op": "fill", "h": r, "v": v, "w": "1", "wk": "pyint"} for r in sorted(self._defined(head))
+                    if r in (op.get("h"), op.get("a"))] if v is not None else []
+            out.append({**copy.deepcopy({k_: v_ for k_, v_ in case.items() if k_ != "ops"}), "ops": head + tail})
+        return out
+
     def nontrivial(self, case, io):
+        if case.get("stream") == "refused_mid_history":
+            # a planned refusal really refused, and data entered both before and after it
+            ks = [k for k, (op, o) in enumerate(zip(case["ops"], io["outs"])) if op.get("refusal") and o["ret"] == "REFUSED"]
+            enters = [k for k, op in enumerate(case["ops"]) if op["op"] in ("fill", "fill_n", "construct", "iadd") and not op.get("refusal")]
+            return bool(ks) and any(k < ks[0] for k in enters) and any(k > ks[0] for k in enters)
         if case.get("mixed"):
             return sum(1 for o in case["ops"] if o["op"] in ("fill", "fill_n", "construct")) >= 2
         return len(set(case["src"]["vals"])) >= 2
